@@ -225,6 +225,11 @@ def run(pid="C04", mon="MonC04"):
     scs += family(ctx, pid, 25 if quick else 300, quick, bogus=True, maxc=4, name="bogus")
     scs += forms_family(pid, 4, "up") + forms_family(pid, 4, "id") if quick else forms_family(pid, 5, "up") + forms_family(pid, 5, "id")
     scs += prereg_family(pid) + multigroup_family(pid)
+    # JSON wire encoding (WithConnEncoding)
+    js = forms_family(pid, 3, "id", conn={"encoding": "json"}, name="forms-id3-json") + forms_family(pid, 3, "up", conn={"encoding": "json"}, name="forms-up3-json")
+    for x in multigroup_family(pid):
+        js.append(dict(x, id=x["id"] + "-json", conn=dict(x["conn"], encoding="json")))
+    scs += js
     if pid == "C03":
         scs += meta_family(pid)
         # unreliable downstream over a transport with a separate unreliable path (chunks arrive on the datagram-like pipe)
